@@ -128,6 +128,7 @@ fn meta_state(dir: &Path, id: &str) -> String {
 ///     C  the subscription is cancelled because its listeners are gone, two more rows are written, then G
 ///     K  the files are copied as they are (kill -9)
 ///     D  the tripwire fires but the handles are not dropped yet (the matcher is draining), then kill
+///     S  graceful, and two more rows are committed while the matcher is draining
 /// obs per phase: before id/rows/maxc/db ; meta state found at the next start ; restored ids ;
 ///                directory present ; restored rows vs the query ; change ids
 pub fn restart(t: &mut Toks) -> String {
@@ -183,6 +184,19 @@ pub fn restart(t: &mut Toks) -> String {
                     let _ = live.tw_tx.send(()).await;
                     let _ = tokio::time::timeout(Duration::from_secs(5), &mut live.worker).await;
                     tokio::time::sleep(Duration::from_millis(120)).await;
+                    copy_dir(&dir, &ndir);
+                }
+                "S" => {
+                    // graceful, with two transactions committed while the matcher is draining (after
+                    // the tripwire, before the handles are dropped)
+                    let _ = live.tw_tx.send(()).await;
+                    let _ = tokio::time::timeout(Duration::from_secs(5), &mut live.worker).await;
+                    tokio::time::sleep(Duration::from_millis(150)).await;
+                    write_rows(&agent, &mut live.opts.rx_bcast, next, 2).await; next += 2;
+                    tokio::time::sleep(Duration::from_millis(50)).await;
+                    agent.subs_manager().drop_handles().await;
+                    cur = None;
+                    let _ = tokio::time::timeout(Duration::from_secs(10), wait_for_all_pending_handles()).await;
                     copy_dir(&dir, &ndir);
                 }
                 "G" | "C" => {
